@@ -113,6 +113,16 @@ def judge_failure(obj, got, world, ref_out, o, plausible=None):
         return ("wrong-source", f"source is {e.source!r}, evaluate() was called on {obj!r}")
     chain = cause_chain(e)
     injected = [x for x in chain if any(x is y for y in world.raised)]
+    # the chain leads through the nested objects to the original exception: a link raised by the runtime's
+    # own handler lookup ("no handler for this request type") does not belong there - every request type
+    # used by an evaluation has a handler
+    for x in chain:
+        if isinstance(x, TypeError) and not any(x is y for y in world.raised):
+            tb = x.__traceback__
+            while tb is not None and tb.tb_next is not None:
+                tb = tb.tb_next
+            if tb is not None and tb.tb_frame.f_code.co_filename.replace("\\", "/").endswith("labrea/runtime.py"):
+                return ("runtime-lookup-error-in-cause-chain", f"cause chain {[type(y).__name__ + ':' + str(y)[:50] for y in chain]}")
     if world.raised and any(x is world.raised[-1] for x in chain):
         return None
     knf = [x for x in chain if isinstance(x, KeyNotFoundError) and not any(x is y for y in world.raised)]
@@ -162,6 +172,12 @@ def check_system(label, term, spec, res, tier, excs=EXCS, do_b=True):
             wt.reset_log()
             twin.append(observe(wt, lambda: tobj.evaluate(copy.deepcopy(o))))
             refs.append(r.run(term, o))
+            if not twin[-1].ok:
+                # the same graph with caching switched off takes the plain evaluate() path everywhere: its
+                # failures must have the same shape (source, cause chain, missing key)
+                v = judge_failure(tobj, twin[-1], wt, refs[-1], o, plausible)
+                if v:
+                    fail("uncached:" + v[0], [o], v[1], faults)
         firsts = {}
         for j, o in enumerate(dicts):
             system.restore(empty)
